@@ -255,7 +255,7 @@ impl Monitor {
                 h = crate::prng::fnv_mix(h, &[out.ok as u8, verdict_tag, fired as u8]);
                 self.transitions.insert(h);
             }
-            Op::Advance { .. } | Op::SetAdmin { .. } | Op::Probe { .. } => {
+            Op::Advance { .. } | Op::SetAdmin { .. } | Op::Probe { .. } | Op::Mint { .. } => {
                 if let Op::SetAdmin { .. } = op {
                     if out.ok {
                         self.hit("admin_change");
